@@ -120,10 +120,23 @@ def band_run():
         Radio = ns["Detector"].Radio
         lo, hi = z3.Real("low_frequency"), z3.Real("high_frequency")
         obj = type("R", (), {"low_frequency": SV(t=lo), "high_frequency": SV(t=hi)})()
-        f = Radio.__pydantic_decorators__.model_validators["validate_high_frequency"].func
+        # the band check, wherever pydantic has it registered: a model-level "after" validator (the pinned tree), or a
+        # field-level "after" validator of one edge that reads the other from info.data (not looked up by name)
+        dec = Radio.__pydantic_decorators__
+        mvs = [d.func for d in dec.model_validators.values() if d.info.mode == "after"]
+        fvs = [(d.func, d.info.fields) for d in dec.field_validators.values() if d.info.mode == "after" and set(d.info.fields) & {"low_frequency", "high_frequency"}]
+        if not mvs and not fvs:
+            raise core.HarnessError("no band validator registered on Detector.Radio")
+        r, raised = obj, False
         try:
-            r = f(obj)
-            raised = False
+            for f in mvs:
+                r = f(obj)
+            for f, fields in fvs:
+                for fld in fields:
+                    other = "low_frequency" if fld == "high_frequency" else "high_frequency"
+                    info = type("Info", (), {"data": {other: getattr(obj, other)}, "field_name": fld})()
+                    getattr(Radio, f.__name__)(getattr(obj, fld), info)
+                r = obj
         except ValueError:
             r, raised = None, True
         claims = {"frequency band accepted exactly when high > low (an inverted or empty band is rejected)": z3.BoolVal(raised) == (hi <= lo),
@@ -325,6 +338,22 @@ def _api_probe(seed=0):
                     continue
                 if not (abs(got - want) <= 4 * np.finfo(float).eps * abs(want)):
                     bad.append((f"{mpath}.{field}: {spelling} is stored with astropy's conversion to {canon}", f"{given!r} stored as {got!r}, astropy gives {want!r} {canon}"))
+    # frequency band: accepted exactly when the resulting band (explicit edges, or the default for an omitted one) is not inverted
+    R0 = cfgmod.Detector.Radio()
+    dlo, dhi = R0.low_frequency, R0.high_frequency
+    for kw in ({"low_frequency": 50.0, "high_frequency": 40.0}, {"low_frequency": 40.0, "high_frequency": 50.0}, {"low_frequency": dhi + 200.0}, {"low_frequency": f"{float(dhi + 100.0) / 1000.0!r} GHz"},
+               {"low_frequency": dhi - 1.0}, {"high_frequency": dlo - 5.0}, {"high_frequency": dlo + 5.0}, {"high_frequency": Quantity((dlo - 10.0) * 1e6, au.Hz)},
+               {"low_frequency": 100.0, "high_frequency": 100.0}):
+        n += 1
+        lo = float(Quantity(kw["low_frequency"]).to(au.MHz).value) if isinstance(kw.get("low_frequency"), str) else (kw["low_frequency"].to(au.MHz).value if isinstance(kw.get("low_frequency"), Quantity) else kw.get("low_frequency", dlo))
+        hi = kw["high_frequency"].to(au.MHz).value if isinstance(kw.get("high_frequency"), Quantity) else kw.get("high_frequency", dhi)
+        try:
+            cfgmod.Detector.Radio(**kw)
+            acc = True
+        except Exception:  # noqa
+            acc = False
+        if acc != (hi > lo):
+            bad.append(("radio frequency band: accepted exactly when high > low (edges as given, defaults for omitted ones)", f"Detector.Radio({kw}) -> band [{lo}, {hi}] MHz: accepted = {acc}"))
     # TOML round trip, every leaf non-default, all six variants
     Sim, Det = cfgmod.Simulation, cfgmod.Detector
     k = 0
